@@ -152,6 +152,53 @@ def r9_state_has_writer(ctx):
                                    "no __init__"),
                                 text_="%s.%s reads self.%s" % (cname, mn, n.attr))
     ctx.floor("C20.R9", n_, 60, "attribute reads of the codec and format classes")
+    # ... and state that methods update in place belongs to the instance: a
+    # mutable object created once in the class body is shared by every encoded
+    # fiber of that format (two bit-vector fibers scanned in turn would move
+    # one cursor)
+    MUT = ("append", "extend", "insert", "pop", "remove", "clear", "update", "add",
+           "setdefault", "sort", "reverse")
+    for cname in names:
+        ci = [c for k, c in prog.classes.items() if c.name == cname and k.startswith("codec/")][0]
+        chain = _ctor_chain(prog, ci)
+        rebound = set()
+        for f in chain:
+            for n in f.own_nodes():
+                if isinstance(n, ast.Attribute) and isinstance(n.ctx, ast.Store) and \
+                        text(n.value) == "self":
+                    rebound.add(n.attr)
+        for attr, val in sorted(ci.class_attrs.items()):
+            if not isinstance(val, (ast.Call, ast.List, ast.Dict, ast.Set, ast.ListComp,
+                                    ast.DictComp, ast.SetComp)):
+                continue
+            hits = []
+            for k in [ci] + _all_bases(prog, ci):
+                for mn, f in k.methods.items():
+                    if f.node is None:
+                        continue
+                    for n in f.own_nodes():
+                        tgt = None
+                        if isinstance(n, (ast.Attribute, ast.Subscript)) and \
+                                isinstance(n.ctx, ast.Store):
+                            tgt = n.value
+                        elif isinstance(n, ast.Call) and isinstance(n.func, ast.Attribute) \
+                                and n.func.attr in MUT:
+                            tgt = n.func.value
+                        if tgt is not None and text(tgt).replace(" ", "") == "self." + attr:
+                            hits.append((f, n))
+            if hits and attr not in rebound:
+                f, n = hits[0]
+                ctx.bad("C20.R9", ci, ci.node, "%s.%s is created once in the class "
+                        "body (`%s`) and updated in place by %s: every %s instance "
+                        "shares it, so encoded fibers of this format do not have "
+                        "their own %s (scanning two of them in turn moves one "
+                        "shared object)" % (cname, attr, text(val)[:40],
+                                            f.key.split(":")[-1], cname, attr),
+                        text_="%s.%s shared mutable class attribute" % (cname, attr))
+            else:
+                ctx.ok("C20.R9", ci, ci.node, "class attribute %s is not per-fiber state "
+                       "updated in place" % attr,
+                       text_="%s.%s class attribute" % (cname, attr))
 
 
 def _cls(ctx, name):
